@@ -61,7 +61,9 @@ def strategy(tier):
         else:
             n = draw(st.integers(0, 70))
         n = min(n, 70 if tier == "quick" else 130)
-        start = draw(st.sampled_from([0, 0, 1, -5, 1 << 33, -(1 << 40), (1 << 62), 90000]))
+        # starts chosen so that the sequence crosses a sign / word boundary INSIDE a mini-GOP (hidden frames are ordered by comparing pts)
+        start = draw(st.sampled_from([0, 0, 1, -1, -2, -3, -5, -7, -12, -33033, -90000 * 3, (1 << 31) - 5, (1 << 32) - 3, -(1 << 31) - 2, -(1 << 32) - 6,
+                                      1 << 33, -(1 << 40), (1 << 62), (1 << 63) - 200 * 90000, -(1 << 63) + 7, 90000]))
         step = draw(st.sampled_from([1, 1, 1, 2, 1001, 3000, 90000]))
         case = dict(cfg=c, frames=n, content=[draw(st.sampled_from([0, 2, 3, 5])), draw(st.integers(0, 9999)), 50, 2, 0])
         if draw(st.integers(0, 4)) == 0 and n > 0:
